@@ -52,10 +52,15 @@ func formatLog(info *audit.Info) *zerolog.Event {
 	return info.AttrsForLog("assembly.")
 }
 
+// manifests are read into memory: bound what an (arbitrarily expanding) upload can make the server allocate
+const maxInputSize = 64 * 1024 * 1024
+
 func sign(r io.Reader, cert *certloader.Certificate, opts signers.SignOpts) ([]byte, error) {
-	blob, err := ioutil.ReadAll(r)
+	blob, err := ioutil.ReadAll(io.LimitReader(r, maxInputSize+1))
 	if err != nil {
 		return nil, err
+	} else if len(blob) > maxInputSize {
+		return nil, fmt.Errorf("manifest exceeds %d bytes", maxInputSize)
 	}
 	signed, err := appmanifest.Sign(blob, cert, opts.Hash)
 	if err != nil {
